@@ -143,24 +143,33 @@ Definition seek (whole : list Z) (off : Z) : rd unit := fun s => ROk tt (set_res
 Definition slice_from (whole : list Z) (off : Z) : rd unit := fun s =>
   if has_len whole off then ROk tt (set_rest s (dropZ whole off)) else RPanic.
 
-(** [for i := 0; i < n; i++ { body }], flat list of what the bodies return.
-    [fuel] bounds the number of iterations (see [repeat_n]). *)
-Fixpoint iter (fuel : nat) (n : Z) (body : rd (list Z)) (racc : list Z) : rd (list Z) := fun s =>
-  if n <=? 0 then ROk (rev racc) s else
-  match fuel with
-  | O => RFuel
-  | S f =>
-      match body s with
-      | ROk a s' => iter f (n - 1) body (rev_append a racc) s'
-      | RErr c s' => RErr c s'
-      | RPanic => RPanic
-      | RFuel => RFuel
-      end
-  end.
-(** every loop of the decoders consumes at least one byte per successful
-    iteration, so |rest|+1 iterations suffice (Proofs: [RFuel] never happens) *)
+(** [for cont(x) { x = body(x) }] with loop state [x]; [fuel] bounds the number
+    of iterations.  Every loop of the decoders consumes at least one byte per
+    successful iteration, so |rest|+1 iterations suffice (Proofs: [RFuel] never
+    happens). *)
+Fixpoint loopS {X : Type} (fuel : nat) (cont : X -> bool) (body : X -> rd X) (x : X) : rd X := fun s =>
+  if cont x then
+    match fuel with
+    | O => RFuel
+    | S f =>
+        match body x s with
+        | ROk x' s' => loopS f cont body x' s'
+        | RErr c s' => RErr c s'
+        | RPanic => RPanic
+        | RFuel => RFuel
+        end
+    end
+  else ROk x s.
+Definition loop {X : Type} (cont : X -> bool) (body : X -> rd X) (x : X) : rd X :=
+  fun s => loopS (S (length (s_rest s))) cont body x s.
+
+(** [for i := 0; i < n; i++ { body }], flat list of what the bodies return
+    (loop state: iterations left, reversed accumulator) *)
 Definition repeat_n (n : Z) (body : rd (list Z)) : rd (list Z) :=
-  fun s => iter (S (length (s_rest s))) n body [] s.
+  x <- loop (fun st : Z * list Z => 0 <? fst st)
+            (fun st => a <- body ;; ret (fst st - 1, rev_append a (snd st)))
+            (n, []) ;;
+  ret (rev (snd x)).
 
 Definition run {A} (r : rd A) (input : list Z) : res A := r (mkSt input 0 0).
 
@@ -258,22 +267,16 @@ Definition elt_sbios : rd (list Z) :=
 Definition pcr_bits (i b : Z) : list Z :=
   flat_map (fun j => if Z.testbit b j then [i * 8 + j] else []) [0; 1; 2; 3; 4; 5; 6; 7].
 
-Fixpoint sel_loop (fuel : nat) (i n : Z) (racc : list Z) : rd (list Z) := fun s =>
-  if i <? n then
-    match fuel with
-    | O => RFuel
-    | S f => match read_be 1 s with
-             | ROk b s' => sel_loop f (i + 1) n (rev_append (pcr_bits i b) racc) s'
-             | RErr c s' => RErr c s'
-             | RPanic => RPanic
-             | RFuel => RFuel
-             end
-    end
-  else ROk (rev racc) s.
+(** [for i := 0; i < int(selSize); i++ { read a byte; append the set bits }] *)
+Definition sel_loop (n : Z) : rd (list Z) :=
+  x <- loop (fun st : Z * list Z => fst st <? n)
+            (fun st => b <- read_be 1 ;; ret (fst st + 1, rev_append (pcr_bits (fst st) b) (snd st)))
+            (0, []) ;;
+  ret (rev (snd x)).
 
 Definition pcr_info : rd (list Z) :=
   ss <- read_be 2 ;;
-  sel <- (fun s => sel_loop (S (length (s_rest s))) 0 ss [] s) ;;
+  sel <- sel_loop ss ;;
   loc <- read_be 1 ;; dg <- read_n 20 ;;
   ret ([loc; lenZ sel] ++ sel ++ dg).
 
@@ -309,23 +312,18 @@ Definition lcp_signature : rd (list Z) :=
   alloc ks 1 ;;; sg <- read_slice ks ;;
   ret ([rc; ks] ++ pk ++ sg).
 
-(** [for i := 0; i < int(PolicyElementSize); { parse; append; i += int(elt.Size) }] *)
-Fixpoint list1_loop (fx : fixes) (fuel : nat) (i esz cnt : Z) (racc : list Z) : rd (Z * list Z) := fun s =>
-  if i <? esz then
-    match fuel with
-    | O => RFuel
-    | S f => match element fx s with
-             | ROk (size, sm) s' => list1_loop fx f (i + size) esz (cnt + 1) (rev_append sm racc) s'
-             | RErr c s' => RErr c s'
-             | RPanic => RPanic
-             | RFuel => RFuel
-             end
-    end
-  else ROk (cnt, rev racc) s.
+(** [for i := 0; i < int(PolicyElementSize); { parse; append; i += int(elt.Size) }]
+    (loop state: i, number of elements, reversed summaries) *)
+Definition list1_loop (fx : fixes) (esz : Z) : rd (Z * list Z) :=
+  x <- loop (fun st : Z * Z * list Z => fst (fst st) <? esz)
+            (fun st => e <- element fx ;;
+                       ret (fst (fst st) + fst e, snd (fst st) + 1, rev_append (snd e) (snd st)))
+            (0, 0, []) ;;
+  ret (snd (fst x), rev (snd x)).
 
 Definition policy_list1 (fx : fixes) : rd (list Z) :=
   ver <- read_le 2 ;; rs <- read_le 1 ;; sa <- read_le 1 ;; esz <- read_le 4 ;;
-  ce <- (fun s => list1_loop fx (S (length (s_rest s))) 0 esz 0 [] s) ;;
+  ce <- list1_loop fx esz ;;
   sg <- (if sa =? 0 then ret [0]
          else if sa =? 1 then (x <- lcp_signature ;; ret (1 :: x))
          else fail E_OTHER) ;;
@@ -473,7 +471,10 @@ Definition read_txt_registers (data : list Z) : rd (list Z) :=
 (** ** pkg/registers/marshalling.go: ValueFromBytes *)
 
 Definition ID_PUBKEY : list Z := [84; 88; 84; 46; 80; 85; 66; 76; 73; 67; 46; 75; 69; 89].
-(** register id -> width in bytes of the parser table the id is listed in *)
+(** register id -> width in bytes of the parser table the id is listed in.
+    ACM_STATUS is listed in the 64-bit table but its type is uint32:
+    [ACMStatus(raw)] keeps the low 32 bits (see [value_from_bytes]). *)
+Definition ID_ACM_STATUS : list Z := [65; 67; 77; 95; 83; 84; 65; 84; 85; 83].
 Definition reg_width_table : list (list Z * Z) :=
   [ ([66; 79; 79; 84; 95; 71; 85; 65; 82; 68; 95; 80; 66; 69; 67], 8) (* BOOT_GUARD_PBEC *)
   ; ([66; 84; 71; 95; 83; 65; 67; 77; 95; 73; 78; 70; 79], 8) (* BTG_SACM_INFO *)
@@ -513,7 +514,7 @@ Definition value_from_bytes (id : list Z) (b : list Z) : rd (list Z) :=
   if zlist_eqb id ID_PUBKEY then
     (if lenZ b =? 32 then ret b else fail E_OTHER)
   else match lookup_id id reg_width_table with
-       | Some w => v <- read_le w ;; ret [v]
+       | Some w => v <- read_le w ;; ret [if zlist_eqb id ID_ACM_STATUS then v mod 4294967296 else v]
        | None => fail E_OTHER
        end.
 
